@@ -6,7 +6,7 @@ mkdir -p /verif/.build /verif/evidence /verif/replay
 /verif/tools/build_model.sh
 cp /repo/Cargo.lock /verif/harness/Cargo.lock
 cd /verif/harness
-cargo build --offline -q --release
-cargo build --offline -q
-cargo build --offline -q --profile relchk
+cargo build --offline -q --release --bin impl_driver --bin zoracle
+cargo build --offline -q --bin impl_driver --bin zoracle
+cargo build --offline -q --profile relchk --bin impl_driver --bin zoracle
 echo "setup: ok"
